@@ -95,7 +95,9 @@ func c13Decoders(r *core.Run, maxLen int) {
 		var rec func(l int)
 		rec = func(l int) {
 			in := buf[:l]
-			decodeAll(in, func(sig, detail string) { r.Violate(sig, detail, map[string]any{"decoder_input": fmt.Sprintf("%x", in)}) })
+			decodeAll(in, func(sig, detail string) {
+				r.Violate(sig, detail, map[string]any{"decoder_input": fmt.Sprintf("%x", in)})
+			})
 			n++
 			if l == maxLen {
 				return
@@ -300,7 +302,10 @@ func hostileInit() {
 				return put(s, model.EncodePB(n), false)
 			},
 			"file-lying": func(s *store.Store) cid.Cid {
-				n := &model.PBNode{Data: fsData(2, func(d *pb.Data) { d.Filesize = u64p(math.MaxUint64); d.Blocksizes = []uint64{1 << 62, 1 << 62, 1 << 62} }), HasData: true,
+				n := &model.PBNode{Data: fsData(2, func(d *pb.Data) {
+					d.Filesize = u64p(math.MaxUint64)
+					d.Blocksizes = []uint64{1 << 62, 1 << 62, 1 << 62}
+				}), HasData: true,
 					Links: []model.PBLink{{Cid: rawLeaf(s), Tsize: math.MaxInt64, HasTsize: true}}}
 				return put(s, model.EncodePB(n), false)
 			},
@@ -486,7 +491,9 @@ func runC13(r *core.Run) {
 	for _, msg := range c09Corpus(true) {
 		for _, pres := range [][]byte{msg.canonical()} {
 			for i := 0; i <= len(pres); i++ {
-				decodeAll(pres[:i], func(sig, detail string) { r.Violate(sig, detail, map[string]any{"decoder_input": fmt.Sprintf("%x", pres[:i])}) })
+				decodeAll(pres[:i], func(sig, detail string) {
+					r.Violate(sig, detail, map[string]any{"decoder_input": fmt.Sprintf("%x", pres[:i])})
+				})
 				r.Evaluations.Add(1)
 			}
 		}
@@ -585,7 +592,6 @@ type c13Slot struct {
 	c     hostileCase
 	start time.Time
 }
-
 
 // c13Chains: single-child shard chains of depth maxLevels-1 .. maxLevels+2 for
 // every fanout; every operation must return a value or an error.
